@@ -446,7 +446,8 @@ def sm_params(ctx):
     # the local holding the simulated bias series: the 2-D local indexed [:, axis] in the tail
     series = {n.value.id for st in tail for n in ast.walk(st)
               if isinstance(n, ast.Subscript) and isinstance(n.value, ast.Name) and
-              isinstance(n.slice, ast.Tuple) and len(n.slice.elts) == 2}
+              isinstance(n.slice, ast.Tuple) and len(n.slice.elts) == 2 and
+              isinstance(n.slice.elts[0], ast.Slice)}
     ctx.need(len(series) == 1, 'Parameters.apply: bias series local not identified (%s)'
              % sorted(series))
     sname = next(iter(series))
